@@ -110,7 +110,7 @@ class CorrelationFunctionMatrix(Saveable):
         #FIXME: reorganization energies should be defined through _A2 and _A4
         # reorganization energies
         self.lambdas = numpy.zeros(nof+1, dtype=REAL)
-        self.where = [[]]*(nof+1)
+        self.where = [[] for _i in range(nof+1)]
 
         # Actual storage of functions
         # here we store correlation functions
